@@ -693,3 +693,8 @@ MUTANTS = [
         return false;
     int ret""", 'expect': None},
 ]
+
+
+# SESSION7 additions to the claim (clauses added in DESIGN section 12)
+CLAIM['technique'] += '; comparison-primitive recognition shared with C02 (memcmp or OR-fold helper)'
+CLAIM['text'] += ' C06-c (extended): a header verdict without a byte-wise comparison primitive is reported as a finding.'
